@@ -1521,6 +1521,7 @@ func (v *VMValue) ComputedExecute(ctx *Context, detail *BufferSpan) *VMValue {
 	vm.RandSrc = ctx.RandSrc
 	vm.forceSolveDetail = true
 	vm.CustomFlag = ctx.CustomFlag
+	vm.CustomDiceInfo = ctx.CustomDiceInfo // 表达式可能要在这里才编译(从快照恢复的值)，自定义骰子要能被认出来
 	if ctx.Config.OpCountLimit > 0 && vm.NumOpCount > vm.Config.OpCountLimit {
 		vm.Error = errors.New("允许算力上限")
 		ctx.Error = vm.Error
@@ -1611,6 +1612,7 @@ func (v *VMValue) FuncInvokeRaw(ctx *Context, params []*VMValue, useUpCtxLocal b
 	ctx.NumOpCount = vm.NumOpCount       // 防止无限递归
 	vm.RandSrc = ctx.RandSrc
 	vm.CustomFlag = ctx.CustomFlag
+	vm.CustomDiceInfo = ctx.CustomDiceInfo // 函数体可能要在这里才编译(从快照恢复的值)，自定义骰子要能被认出来
 	if ctx.Config.OpCountLimit > 0 && vm.NumOpCount > vm.Config.OpCountLimit {
 		vm.Error = errors.New("允许算力上限")
 		ctx.Error = vm.Error
